@@ -494,7 +494,12 @@ func (sess *session) Create(ctx context.Context, parent Fid, name string,
 		err = openLocked(ctx, &next, mode)
 		if err != nil { // Oops: Create has already succeeded
 						// - so now we have to delete everthing.
-			sess.delRef(ctx, parent, false)
+			// ref is locked here and its entry was consumed by
+			// Create, so delRef (lock + Clunk) cannot be used:
+			// release the new entry and unbind the fid directly.
+			ent.Clunk(ctx)
+			sess.refs.Delete(parent)
+			ref.Ent = nil
 			// Note: ignoring possible multiple errors
 			return fail(err.Error())
 		}
